@@ -125,10 +125,16 @@ def is_sorted(rows, order):
     return True
 
 
+def is_conflict_text(err):
+    """The two write-write conflict errors of the disk engine: the statement did nothing, retry."""
+    err = err or ""
+    return "replaced by a concurrent compaction" in err or "deleted by a concurrent statement" in err
+
+
 def is_conflict(r):
     """A DELETE that lost the race against a background compaction reports this error (and has no
     effect); it is expected to succeed when retried."""
-    return (not r.get("ok")) and "replaced by a concurrent compaction" in (r.get("err") or "")
+    return (not r.get("ok")) and is_conflict_text(r.get("err"))
 
 
 def sql_retry(rl, sql, tries=4):
